@@ -372,7 +372,10 @@ struct G
                 switch (rng.below(allow_line_comment ? 6 : 5)) {
                 case 0: r += "\n"; break;
                 case 1: r += "\n\n  "; break;
-                case 2: r += " /* c */ "; break;
+                case 2:
+                    // a one-line comment, or a documentation-style block whose lines end right after a '*'
+                    r += rng.chance(0.7) ? " /* c */ " : " /**\n * c\n *\n **/ ";
+                    break;
                 case 3: r += " \\\n "; break;
                 case 4: r += "\t"; break;
                 default: r += " // note\n"; break;
